@@ -12,8 +12,10 @@ argument needs is modelled: the two kinds of writes that `Add`/`Remove` perform 
   header is redirected to it.  The old array is never written.
 
 `EachBin` reads the header under `RLock` (a *snapshot*) and then reads `arr[0..len)` without a lock.
-Not modelled here: that the contents equal the list model `Aurora.PSlice` (the list model is what
-the correspondence run ties to the code); Go's growth policy (any capacity is allowed).
+Which of these steps the real `Add`/`Remove`/`EachBin` perform, in which order and with which
+arguments, is in `Aurora/Model/PSliceMemOps.lean`; that their contents equal the list model
+`Aurora.PSlice` is `C21_mem_refines_list`.  Go's growth policy is an oracle there (any capacity
+`≥ len+1`), observed on the real slice by the correspondence run.
 -/
 namespace Aurora.PSliceMem
 open Aurora.PSlice (Addr)
@@ -37,6 +39,7 @@ def read (m : Mem) (h : Hdr) : List Addr := (cells m h.arr).take h.len
 inductive Prim
   | write (i : Nat) (a : Addr)
   | realloc (i : Nat) (content : List Addr) (len cap : Nat)
+deriving DecidableEq, Repr
 
 def step (m : Mem) : Prim → Mem
   | .write i a =>
